@@ -9,6 +9,7 @@ import D2P.Props.C02DeepCells
 import D2P.Props.C02Post
 import D2P.Props.C05Post
 import D2P.Props.C02PostAny
+import D2P.Props.C05PostAny
 /-!
 # Open findings, as kernel-checked witnesses
 
@@ -224,6 +225,15 @@ theorem post_any_witness :
     vfree vmDoc = false ∧ post vmDoc = [1, 14, 24, 50] ∧
     (match newDepthCollector cfgDup [] vmDoc with | .ok dc => elemsOf (leafParsL dc.root) | .error _ => []) = [1, 14, 50] ∧
     (match newDepthCollector cfgNoDup [] vmDoc with | .ok dc => elemsOf (leafParsL dc.root) | .error _ => []) = [1, 14, 24, 50] := by
+  decide +kernel
+
+/-- `C05_post_part_any` with duplication on and a vertical-merge continuation: the records that remain carry the identity
+and (in the cell) the table lineage of their source paragraphs -/
+theorem C05_post_any_witness :
+    (match newDepthCollector cfgDup [] vmDoc with
+      | .ok dc => (metaL dc.root).map (fun (m : Meta) => (m.1, m.2.2 == tableLineage)) | .error _ => [])
+      = [(1, false), (14, true), (50, false)] ∧
+    (postX false vmDoc).map (fun yc => (yc.1.id?, yc.2)) = [(some 1, false), (some 14, true), (some 24, true), (some 50, false)] := by
   decide +kernel
 
 end D2P.Ex
